@@ -375,11 +375,17 @@ Definition psm_pop (p : psm) : psm :=
   else let last_slash := match rfind 47 (nskipn (after_first_slash p) s) with Some i => i | None => 0 end in
        psm_with p (truncate s (after_first_slash p + last_slash)).
 
+(* the skip test of extend(): the segment WITHOUT tab / LF / CR (the text parse_path will see) is "." or ".."
+     let seen = segment.chars().filter(|c| !matches!(c, '\t' | '\n' | '\r'));
+     if seen.clone().eq(".".chars()) || seen.eq("..".chars()) { continue; }                                  *)
+Definition psm_skips (seg : list N) : bool :=
+  let seen := filter (fun c => negb (is_tnl c)) seg in list_eqb seen [46] || list_eqb seen [46; 46].
+
 Fixpoint psm_extend_loop (st : scheme_type) (path_start : N) (s : list N) (segments : list (list N)) : option (list N) :=
   match segments with
   | [] => Some s
   | seg :: rest =>
-      if list_eqb seg [46] || list_eqb seg [46; 46] then psm_extend_loop st path_start s rest
+      if psm_skips seg then psm_extend_loop st path_start s rest
       else
         let s1 := if (path_start + 1 <? nlen s) || (nlen s =? path_start) then s ++ [47] else s in
         ' (s2, _, _) <- unpres (parse_path dbg CPathSegmentSetter st true path_start s1 seg) ;;
